@@ -78,6 +78,38 @@ func (c17) Generate(r *engine.Rand, index int, tier string) *engine.Scenario {
 		// LCDC rewritten with the LCD left on: objects on or off, their size, window, tile maps
 		g.emit(0x3e, 0x80|r.Byte()&0x7f, 0xe0, 0x40)
 	}
+	if index%24 == 13 {
+		// the guest runs code out of OAM with the LCD on: one-cycle instructions on registers all the way
+		// through the 160 bytes, entered at any cycle of a line, then a jump back to work RAM. Opcode
+		// fetches during the OAM scan may disturb OAM (excused like any access in mode 2); outside the
+		// scan OAM stays as it is
+		sc.Class = "code-in-oam"
+		k := (index/24)%114 + 114*r.Intn(3)
+		sc.SetP("nops", int64(k))
+		if it := k / 7; it > 0 {
+			g.emit16(0x01, uint16(it))
+			g.emit(0x0b, 0x78, 0xb1, 0x20, 0xfb)
+		}
+		for i := 0; i < k%7; i++ {
+			g.emit(0x00)
+		}
+		entry := r.Intn(0x90)
+		g.emit(0xc3, uint8(entry), 0xfe)
+		back := uint16(lsCodeWRAM) + uint16(len(g.code))
+		g.emit(0x00, 0x00)
+		g.finish()
+		oam := make([]byte, 0xa0)
+		for i := range oam {
+			oam[i] = engine.Pick(r, []uint8{0x00, 0x00, 0x40, 0x49, 0x52, 0x5b, 0x7f, 0x04, 0x0c, 0x14, 0x1c, 0x3c, 0x05, 0x0d, 0x3d, 0x2f, 0x37, 0x3f, 0x07, 0x17, 0x80, 0x91, 0xa8, 0xb1, 0x47, 0x78})
+		}
+		end := entry + r.Range(1, 0x9d-entry)
+		oam[end], oam[end+1], oam[end+2] = 0xc3, uint8(back), uint8(back>>8)
+		lsScenario(sc, r, g)
+		sc.SetStr("oam_code", engine.Hex(oam))
+		sc.SetP("keep_lcd", 1)
+		sc.Cycles = uint64(len(g.code))*4 + uint64(k) + 600
+		return sc
+	}
 	switch index % 3 {
 	case 0, 1:
 		sc.Class = "off"
@@ -162,6 +194,9 @@ func (c17) Execute(sc *engine.Scenario) *engine.Result {
 	l.onInstr = func(l *lockstep, realCycles int, mism []lsMismatch) bool {
 		for _, mm := range mism {
 			if mm.kind == "undefined" {
+				if sc.Class == "code-in-oam" {
+					return false // the OAM scan got at the code (excused): nothing more to judge
+				}
 				res.Harness = mm.detail
 				return false
 			}
